@@ -8,8 +8,8 @@
    daemon use for that type (A/AAAA address, PTR/CNAME pointer, SRV, TXT, HINFO, NSEC). *)
 From Coq Require Import List NArith Bool.
 From Mdns Require Import Bytes Rec ParamsRegistry Names WireOut Registry RegistryDaemon RegistrySpec
-     RegistryParamsPinned NamesProofs RegistryCmpProofs RegistryProofs RegistryDaemonProofs
-     RegistryWitnesses RegistryWitnessProofs.
+     RegistryTrace RegistryParamsPinned NamesProofs RegistryCmpProofs RegistryProofs RegistryDaemonProofs RegistryLiftProofs
+     RegistryHistoryProofs RegistryDeferralProofs RegistryWitnesses RegistryWitnessProofs.
 Import ListNotations.
 Open Scope N_scope.
 
@@ -211,6 +211,46 @@ Proof. exact w_prefix_lost_defers. Qed.
 Theorem C08_restart_cancels_deferral_refuted : only_known 30 (self8 w_skipreprobe_ifs w_skipreprobe_its).
 Proof. exact w_skipreprobe_known8. Qed.
 
+(* ---- round 7: clause 29 of chk_C08 over histories --------------------------------------------------------
+   deferred n D rg = the probing names of rg are pairwise different and the probe for n exists with
+   next_send >= D.  A lost tie-break at `now` leaves the probe deferred to now + 1000 ... *)
+Theorem C08_lost_tiebreak_leaves_probe_deferred : forall rg qn incoming now pb,
+  NoDup (keys (rg_probing rg)) -> aget qn (rg_probing rg) = Some pb ->
+  tiebreak_not_started (pb_start pb) now = false -> tb_cmp (map p_rr (pb_records pb)) incoming = Lt ->
+  deferred qn (now + 1000) (apply_tiebreak rg qn incoming now).
+Proof. exact lost_tiebreak_defers. Qed.
+
+(* ... and AFTER ANY HISTORY of the daemon model (responses, interface toggles, unregister - anything
+   before), once the probe for n on interface k is deferred to D: through every sequence of
+   iterations at times in [D - 1000, D) that bring only queries (competing probes, further lost
+   tie-breaks included) and register / monitor / shutdown calls, NO probe query for n goes out on
+   interface k.
+   `_partial`: the iterations of that second are restricted to plain ones - no response datagram at
+   all (not only the host-name conflict of the known class C08-host-rename-cancels-tiebreak-deferral,
+   C08_restart_cancels_deferral_refuted), no enable/disable_interface, no unregister (a forgotten
+   and re-registered name, or a re-created interface, legitimately starts a new probe at once). *)
+Theorem C08_deferral_respected_partial : forall ifs os pre k n D its,
+  NoDup (map if_index ifs) ->
+  let st := run_state (d_init_os ifs os) pre in
+  (exists p, aget n (rg_probing (get_reg st k)) = Some p /\ D <= pb_next p) ->
+  Forall plain_iter its -> Forall (fun it => it_now it < D /\ D <= it_now it + 1000) its ->
+  wire_probe_times k n st its = [].
+Proof. exact deferral_respected_after_any_history. Qed.
+
+(* side conditions that hold in every reachable state (used above): interface indexes pairwise
+   different, probing names pairwise different in every registry *)
+Theorem C08_interface_indexes_distinct_all_histories : forall ifs os, NoDup (map if_index ifs) ->
+  forall its, NoDup (map if_index (d_intfs (run_state (d_init_os ifs os) its))).
+Proof. exact intfs_nodup_all_histories. Qed.
+
+(* non-vacuity on w_prefix_lost: after the lost tie-break at +300 ms the probe is due at +1300 ms;
+   iterations at +500, +1000, +1299 ms send no probe query for the name, the one at +1300 ms does *)
+Example C08_deferral_example :
+  option_map pb_next (aget n_inst (rg_probing (get_reg (state_after w_prefix_lost_ifs w_prefix_lost_its 3) 2))) = Some 1001300 /\
+  wire_probe_times 2 n_inst (state_after w_prefix_lost_ifs w_prefix_lost_its 3) [idle 1000500; idle 1001000; idle 1001299] = [] /\
+  wire_probe_times 2 n_inst (state_after w_prefix_lost_ifs w_prefix_lost_its 3) [idle 1000500; idle 1001300] = [1001300].
+Proof. exact w_prefix_lost_deferral. Qed.
+
 (* A conflict or a lost tie-break never makes probe queries of one series come closer than 250 ms:
    that is C07_probe_spacing_all_schedules, whose operation sequences include OConflict and OTiebreak.
 
@@ -262,4 +302,8 @@ Print Assumptions C08_direct_answer_current_host.
 Print Assumptions C08_former_witnesses_accepted.
 Print Assumptions C08_prefix_loses_and_defers.
 Print Assumptions C08_restart_cancels_deferral_refuted.
+Print Assumptions C08_lost_tiebreak_leaves_probe_deferred.
+Print Assumptions C08_deferral_respected_partial.
+Print Assumptions C08_interface_indexes_distinct_all_histories.
+Print Assumptions C08_deferral_example.
 Print Assumptions C08_compare_example.
